@@ -110,7 +110,7 @@ Print Assumptions C17_results_stable.
 Theorem C17_heap_simulates : forall h,
   fst (run empty h) = proj (fst (hrun hempty h)) /\
   Forall2 (fun x y => exists hp, x = out_of hp y) (snd (run empty h)) (snd (hrun hempty h)).
-Proof. intros h. exact (proj2 (heap_sim h hempty hwf_empty)). Qed.
+Proof. exact heap_sim_empty. Qed.
 Print Assumptions C17_heap_simulates.
 
 Theorem C17_heap_simulates_step : forall now st o,
